@@ -1,11 +1,15 @@
 #!/bin/bash
 # with_patch.sh <patch|--revert COMMIT> -- <command...> : apply to /repo, run, restore /repo
+# WITH_PATCH_REVERT=<commit> : reverse that commit first (a seeded change written against the tree before a later fix of the same lines)
 set -u
+if [ -n "${WITH_PATCH_REVERT:-}" ]; then
+  git -C /repo show "$WITH_PATCH_REVERT" | git -C /repo apply -R || exit 3
+fi
 if [ "$1" = "--revert" ]; then
   git -C /repo show "$2" | git -C /repo apply -R || exit 3
   shift 2
 else
-  git -C /repo apply "$1" || exit 3
+  git -C /repo apply "$1" || { git -C /repo checkout -- .; exit 3; }
   shift
 fi
 shift   # the --
